@@ -137,13 +137,15 @@ func registerCensus(r *lib.Run) {
 			return fastlogImplementers()
 		case "consts":
 			return constsOfLogging()
+		case "pool":
+			return poolSites()
 		}
 		panic("harness: unknown census " + a[0])
 	})
 }
 
 func censusCases(g *gen) {
-	for _, k := range []string{"line", "logger", "fastlog", "consts"} {
+	for _, k := range []string{"line", "logger", "fastlog", "consts", "pool"} {
 		g.r.Do("census", k)
 	}
 }
